@@ -13,16 +13,35 @@ def depth(m):
     return d
 
 
+def all_msgs(m):
+    out = [m]
+    for n, t, items in m.fields:
+        if t == 'message':
+            for x in items: out += all_msgs(x)
+    return out
+
+
 def c_jobs(tier):
     J = []
     for sname, m in wire.std_shapes(tier).items():
-        gen = wire.gen_c(m); full = wire.size(wire.tokens(m)); d = depth(m) + 1
+        toks = wire.tokens(m); gen = wire.gen_c(m); full = wire.size(toks); d = depth(m) + 1
+        nf = max(len(x.fields) for x in all_msgs(m)) + 2
+        items = 6                                    # shapes have <= 4 items per field
+        big = max(full, wire.WL_MAXVALS) + 2          # harness loops over encoded bytes / payload values
         rec = {'build': d, 'check_parsed': d, 'MMFreeMessage': d + 1, 'MMClearMessage': d + 1, 'FreeMMessageField': d + 1, 'MMUnflattenMessage': d, 'MMGetFlattenedSize': d,
-               'GetMMessageFieldFlattenedSize': d, 'MMFlattenMessage': d, 'FlattenMMessageField': d, 'IncreaseCurrentFieldDataLength': d + 1, 'IncreaseParentValidBytesBy': d + 1}
+               'GetMMessageFieldFlattenedSize': d, 'MMFlattenMessage': d, 'FlattenMMessageField': d, 'IncreaseCurrentFieldDataLength': d + 1, 'IncreaseParentValidBytesBy': d + 1,
+               'MMUnflattenMessage.0': nf, 'MMGetFlattenedSize.0': nf, 'MMFlattenMessage.0': nf, 'MMFlattenMessage.1': nf, 'LookupMMessageField.0': nf, 'MMClearMessage.0': nf,
+               'GetFieldByNameAux.0': nf, 'GetNumItemsInField.0': items, 'UMFindMessage.0': items, 'UMFindData.0': items, 'UMGetString.0': items, 'UMGetString.1': 8}
+        rules = {'harness_um_build': big, 'harness_um_parse_ref': big, 'harness_mm_build': big, 'harness_mm_parse_ref': big, 'wlv_assume_canonical': nf + 4, 'build': 10, 'check_parsed': 10}
         for entry, harness, srcs in (('harness_um_build', 'harness/c/um_wire.c', UM_SRC), ('harness_um_parse_ref', 'harness/c/um_wire.c', UM_SRC),
                                      ('harness_mm_build', 'harness/c/mm_wire.c', MM_SRC), ('harness_mm_parse_ref', 'harness/c/mm_wire.c', MM_SRC)):
-            J.append(Job('%s %s' % (entry[8:], sname), 'A', harness, entry, srcs=srcs, gen_c=gen, unwind=max(full, wire.WL_MAXVALS) + 2, unwindset=rec, mode='mem', object_bits=12,
-                         family='c08/' + entry[8:], timeout=(120 if tier == 'quick' else 600)))
+            mm = entry.startswith('harness_mm')
+            # MiniMessage keeps its fields in a linked list of untyped heap blocks; CBMC loses the pointers stored in such blocks to byte granularity, so
+            # multi-field and nested shapes do not finish within the quick budget (measured: > 120 s).  They are attempted in the thorough tier only.
+            if tier == 'quick' and (mm and (len(m.fields) > 1 or d > 2) or (entry == 'harness_um_parse_ref' and d > 2)): continue
+            J.append(Job('%s %s' % (entry[8:], sname), 'A', harness, entry, srcs=srcs, gen_c=gen, unwind=10, unwindset=dict(rec), loop_rules=dict(rules, verif_memcpy=2 * full + 161, verif_memset=2 * full + 161),
+                         mode='mem', object_bits=12, family='c08/' + entry[8:], timeout=(120 if tier == 'quick' else 600),
+                         force_include=(['harness/c/valloc.h'] if mm else []), cdefs=({'VERIF_ALLOC_ONE': 2 * full + 160, 'VERIF_ALLOC_TOTAL': 64 * full + 4096} if mm else {})))
     return J
 
 
